@@ -83,12 +83,26 @@ RESULT_PATTERN = {"int": "Value::Int(_)", "bool": "Value::Bool(_)", "string": "V
                   "list": "Value::List(_)"}
 
 
-def harness_name(optag, lk):
-    return f"c16_{optag}_{lk}"
+# rhs cells per harness (8 = one harness per (operator, lhs kind) row); must divide 8
+CELLS_PER_HARNESS = 8
+
+
+def parts():
+    return len(KINDS) // CELLS_PER_HARNESS
+
+
+def harness_name(optag, lk, part=0):
+    if parts() == 1:
+        return f"c16_{optag}_{lk}"
+    return f"c16_{optag}_{lk}_{part}"
+
+
+def part_kinds(part):
+    return list(enumerate(KINDS))[part * CELLS_PER_HARNESS:(part + 1) * CELLS_PER_HARNESS]
 
 
 def harness_names():
-    return [harness_name(t, lk) for (t, _, _) in OPS for lk in KINDS]
+    return [harness_name(t, lk, p) for (t, _, _) in OPS for lk in KINDS for p in range(parts())]
 
 
 def payload_inputs(kind, side, idx):
@@ -102,10 +116,10 @@ def payload_inputs(kind, side, idx):
     return []
 
 
-def inputs_for(optag, lk):
-    """kani::any() call order of harness c16_<optag>_<lk> (for counterexample decoding)."""
+def inputs_for(optag, lk, part=0):
+    """kani::any() call order of harness c16_<optag>_<lk>[_<part>] (for counterexample decoding)."""
     ins = [("l", "usize"), ("c", "usize")]
-    for i, rk in enumerate(KINDS):
+    for i, rk in part_kinds(part):
         ins += payload_inputs(lk, "a", i)
         ins += payload_inputs(rk, "b", i)
     return ins
@@ -255,38 +269,40 @@ def cell(optag, op, lk, rk, i):
     return "\n".join(out) + "\n"
 
 
-def harness(optag, op, lk):
+def harness(optag, op, lk, part=0):
     out = []
     w = out.append
     w("#[kani::proof]")
-    w("#[kani::unwind(2)]")
+    # `[a, b].concat()` in the Sum arm iterates over its two operands: bound 3 covers it
+    w("#[kani::unwind(3)]" if op == "Sum" else "#[kani::unwind(2)]")
     w("#[kani::stub(alloc::fmt::format, fmt_stub)]")
     if lk == "int" and op == "Div":
         w("#[kani::stub(i64::checked_div, checked_div_stub)]")
     if lk == "int" and op == "Mod":
         w("#[kani::stub(i64::checked_rem, checked_rem_stub)]")
         w("#[kani::stub(i64::wrapping_rem, wrapping_rem_stub)]")
-    w(f"fn {harness_name(optag, lk)}() {{")
+    w(f"fn {harness_name(optag, lk, part)}() {{")
     w("    let l: usize = kani::any();")
     w("    let c: usize = kani::any();")
     w(f"    let op = BinaryOp::{op};")
     w("    let loc = (l, c);")
     body = "\n".join(out) + "\n"
-    for i, rk in enumerate(KINDS):
+    for i, rk in part_kinds(part):
         body += cell(optag, op, lk, rk, i)
     body += "}\n"
     return body
 
 
 def generate():
-    parts = [PRELUDE]
+    out = [PRELUDE]
     for n in ["null", "bool", "int", "string", "list", "object", "func"]:
-        parts.append(name_fn(n))
+        out.append(name_fn(n))
     for (optag, op, _sym) in OPS:
-        parts.append(f"\n// ---------------------------------------------------------------- {op}\n")
+        out.append(f"\n// ---------------------------------------------------------------- {op}\n")
         for lk in KINDS:
-            parts.append("\n" + harness(optag, op, lk))
-    return "".join(parts)
+            for p in range(parts()):
+                out.append("\n" + harness(optag, op, lk, p))
+    return "".join(out)
 
 
 def main(argv):
